@@ -10,7 +10,7 @@ use crate::verif::drivers::common::{emit_inconclusive, emit_violation, Params, T
 use crate::verif::drivers::sched::{make_scenario, Final, Scenario};
 use crate::verif::shim::Policy;
 use crate::verif::util::{fnv64, fnv_str, mix, Rng, J};
-use crate::verif::vsys::{Clock, Disk, Snapshot, VSys, RULER_DIR};
+use crate::verif::vsys::{Clock, Disk, Snapshot, VSys, ruler_dir};
 use crate::verif::world::{self, Obs, SchedChoice, Verdict, Violation};
 
 fn disk_hash(disk : &Disk) -> u64
@@ -33,10 +33,10 @@ fn disk_hash(disk : &Disk) -> u64
 
 fn classify_pending(pending : &str) -> String
 {
-    let state_file = pending.contains(&format!("{}/history/", RULER_DIR)) || pending.contains(&format!("{}/current_file_states", RULER_DIR));
+    let state_file = pending.contains(&format!("{}/history/", ruler_dir())) || pending.contains(&format!("{}/current_file_states", ruler_dir()));
     let op = pending.split_whitespace().next().unwrap_or("?");
     if state_file { format!("{}:state-file", op) }
-    else if pending.contains(&format!("{}/cache/", RULER_DIR)) { format!("{}:cache", op) }
+    else if pending.contains(&format!("{}/cache/", ruler_dir())) { format!("{}:cache", op) }
     else if pending.starts_with("command") { "command-output".to_string() }
     else { format!("{}:other", op) }
 }
